@@ -72,6 +72,7 @@ type env struct {
 	// initLookups: holder -> "@init:<target id>" -> what the lookup from inside Init returned
 	initLookups map[string]map[string][]string
 	loaderHands map[string]*simrt.Handle
+	procHands   map[string]*simrt.Handle
 }
 
 // ptrKey identifies an object by type and address (distinct zero-size components may share
@@ -131,6 +132,13 @@ func (e *env) readPoint(obj any, typeName string, pt *sdl.Point) []string {
 	}
 	out := []string{}
 	switch v.Kind() {
+	case reflect.Array:
+		// (an array-typed field is never an injection point: empty entries are what it is made of)
+		for i := 0; i < v.Len(); i++ {
+			if id := e.idOf(v.Index(i)); id != "" {
+				out = append(out, id)
+			}
+		}
 	case reflect.Slice:
 		for i := 0; i < v.Len(); i++ {
 			id := e.idOf(v.Index(i))
@@ -449,7 +457,7 @@ func Run(t *testing.T, bind *Binding, spec *RunSpec) (obs *model.Obs) {
 		ctx.Armed[f] = true
 	}
 	e := &env{spec: spec, bind: bind, ctx: ctx, prog: spec.Prog, objs: map[string]any{}, ptrID: map[ptrKey]string{},
-		subs: map[string]any{}, freshN: map[string]int{}, lateDone: map[string]bool{}, hands: map[string]*simrt.Handle{}, obs: obs, names: map[string]string{}, scans: map[string]*simrt.TagScanner{}, initLookups: map[string]map[string][]string{}, loaderHands: map[string]*simrt.Handle{}}
+		subs: map[string]any{}, freshN: map[string]int{}, lateDone: map[string]bool{}, hands: map[string]*simrt.Handle{}, obs: obs, names: map[string]string{}, scans: map[string]*simrt.TagScanner{}, initLookups: map[string]map[string][]string{}, loaderHands: map[string]*simrt.Handle{}, procHands: map[string]*simrt.Handle{}}
 	syslog.SetLogger(simrt.SilentLogger{})
 	simrt.FormatLogs = spec.Parallel
 	if spec.Parallel && StockLoggerProgram(spec.Prog) {
@@ -654,7 +662,8 @@ func (e *env) main(inClose, closeReturned *bool) {
 	for _, pr := range p.Procs {
 		pr := pr
 		h := &simrt.Handle{ID: pr.ID, Alias: pr.ID, Ord: pr.Order, C: ctx}
-		core := simrt.ProcCore{H: h, PropsOK: pr.Props}
+		e.procHands[pr.ID] = h
+		core := simrt.ProcCore{H: h, PropsOK: pr.Props, PropsRet: pr.PropsRet}
 		core.Resolve = func(proc, cb, name string, cur any) any {
 			tgt := byName[name]
 			if tgt == nil {
@@ -947,6 +956,12 @@ func (e *env) main(inClose, closeReturned *bool) {
 		spec.Lookups, spec.Continue, spec.Close = false, false, false
 	}
 	obs.EndOfRun = ctx.Log("end-of-run", "", "")
+	if len(e.procHands) != 0 && !spec.Parallel {
+		obs.FactorySeen = map[string][2]int{}
+		for _, id := range sdl.SortedKeys(e.procHands) {
+			obs.FactorySeen[id] = [2]int{e.procHands[id].SeenComponents, e.procHands[id].SeenScanners}
+		}
+	}
 
 	// observations
 	obs.Points = map[string]map[string][]string{}
